@@ -22,10 +22,21 @@ pub fn dry(outlen: usize, pwd: &[u8], salt: &[u8], t: u64, memlimit: usize, typ:
     }))
 }
 
+static CORPUS: std::sync::Mutex<Option<std::io::BufWriter<std::fs::File>>> = std::sync::Mutex::new(None);
+
 fn check(st: &mut Stats, grid: &str, outlen: usize, pwd: &[u8], salt: &[u8], t: u32, m: u32, extra_bytes: usize, typ: i32) {
     let memlimit = m as usize * 1024 + extra_bytes;
     let (rc, want, _) = sodium::argon2_raw(t, m, pwd, salt, outlen, typ, false);
     let got = dry(outlen, pwd, salt, t as u64, memlimit, typ);
+    // sub-grid for the independent Python RFC 9106 reference (dryoc's own output is dumped)
+    if m <= 48 && t <= 3 && extra_bytes == 0 && (grid != "G1-outlen" || outlen % 8 == 1 || [16, 32, 63, 64, 65, 96, 97, 128, 129, 1100].contains(&outlen)) && (grid != "G1xG2" || m % 4 == 1) {
+        if let Ok(Some(g)) = &got {
+            use std::io::Write;
+            if let Some(f) = CORPUS.lock().unwrap().as_mut() {
+                let _ = writeln!(f, "{}", json!({"pwd": hx(pwd), "salt": hx(salt), "t": t, "m": m, "outlen": outlen, "typ": typ, "out": hx(g)}));
+            }
+        }
+    }
     let mut ok = rc == 0 && matches!(&got, Ok(Some(g)) if g == &want);
     // libsodium's own crypto_pwhash where it accepts the parameters
     if ok && salt.len() == 16 {
@@ -65,6 +76,11 @@ pub fn run() -> i32 {
     ctx.assume("reference: libsodium's argon2_hash symbol (version 1.3, 1 lane) and crypto_pwhash; no full cross-product of all dimensions (stated per-dimension)");
     let pwd8 = cval(seed, 3, 8);
     let salt16 = kval(seed ^ 0x9, 3, 16);
+    let corpus_path = format!("{}/logs/c09_corpus.jsonl", VERIF_ROOT);
+    let _ = std::fs::create_dir_all(format!("{}/logs", VERIF_ROOT));
+    *CORPUS.lock().unwrap() = Some(std::io::BufWriter::new(std::fs::File::create(&corpus_path).expect("corpus")));
+    ctx.note("second_reference_corpus", json!(corpus_path));
+    ctx.assume("reference 2: pure-Python Argon2 written from RFC 9106 over the dumped sub-grid m <= 48 KiB, t <= 3 (ref/argon2_check.py), run by bin/check after this binary");
 
     // G1
     let units: Vec<usize> = (16..=1100).collect();
@@ -159,6 +175,12 @@ pub fn run() -> i32 {
     rej("opslimit>max", 32, 16, dryoc::constants::CRYPTO_PWHASH_OPSLIMIT_MAX + 1, 8192, &mut st);
     st.sample(json!({"grid": "G4", "rejected": ["outlen 0..=15", "salt 0..=7", "opslimit 0", "memlimit 0,1,1024,8191", "memlimit max+1", "opslimit max+1"]}));
     ctx.absorb("G4-rejects", st);
+    {
+        use std::io::Write;
+        if let Some(mut f) = CORPUS.lock().unwrap().take() {
+            let _ = f.flush();
+        }
+    }
 
     // object API
     let units: Vec<usize> = vec![0, 1, 2, 5, 8];
